@@ -135,7 +135,10 @@ func (m *Module) runWorker(name string, fn func(context.Context) error) (err err
 }
 
 func (m *Module) runCtrlFnWithTimeout(name string, timeout time.Duration, fn func() error) error {
-	stopFnError := m.startCtrlFn(name, fn)
+	// The caller continues as soon as it has the result: finish the control
+	// function's bookkeeping first, so that it cannot interfere with a stop
+	// that begins right afterwards.
+	stopFnError := m.runCtrlFn(name, fn, true)
 
 	// wait for results
 	select {
@@ -147,6 +150,12 @@ func (m *Module) runCtrlFnWithTimeout(name string, timeout time.Duration, fn fun
 }
 
 func (m *Module) startCtrlFn(name string, fn func() error) chan error {
+	return m.runCtrlFn(name, fn, false)
+}
+
+// runCtrlFn runs the control function in a goroutine. With finishFirst the
+// finish is signalled before the result is delivered, otherwise afterwards.
+func (m *Module) runCtrlFn(name string, fn func() error, finishFirst bool) chan error {
 	ctrlFnError := make(chan error, 1)
 
 	// If no function is given, still act as if it was run.
@@ -165,24 +174,36 @@ func (m *Module) startCtrlFn(name string, fn func() error) chan error {
 
 	// Start control function in goroutine.
 	go func() {
-		// Recover from panic and reset control function signal.
+		var err error
+
+		// Recover from panic, report the result and reset control function signal.
 		defer func() {
 			// recover from panic
 			panicVal := recover()
 			if panicVal != nil {
 				me := m.NewPanicError(name, "module-control", panicVal)
 				me.Report()
-				ctrlFnError <- fmt.Errorf("panic: %s", panicVal)
+				err = fmt.Errorf("panic: %s", panicVal)
 			}
 
+			if finishFirst {
+				// Signal finish.
+				m.ctrlFuncRunning.UnSet()
+				m.checkIfStopComplete()
+				// Report error.
+				ctrlFnError <- err
+				return
+			}
+
+			// Report error, so that it is available when the finish is signalled.
+			ctrlFnError <- err
 			// Signal finish.
 			m.ctrlFuncRunning.UnSet()
 			m.checkIfStopComplete()
 		}()
 
-		// Run control function and report error.
-		err := fn()
-		ctrlFnError <- err
+		// Run control function.
+		err = fn()
 	}()
 
 	return ctrlFnError
